@@ -24,6 +24,7 @@ func runC02(c *Ctx) {
 	// "with their credits intact": a credit carried from one store to the other keeps its change / spent markers —
 	// every flag handed to a value builder or tested comes from the bit of that name (C13-R4's flag typing, taken over)
 	runFlagTyping(c, "C02-R3")
+	checkFlagBytesReadThroughMasks(c, "C02-R3")
 	// R1
 	ins := wtxFn(c, "C02-R1", "insertMinedTx")
 	rds := wtxFn(c, "C02-R1", "removeDoubleSpends")
@@ -133,6 +134,8 @@ func runC02(c *Ctx) {
 		checkCoupledRollback(c, "C02-R4")
 		// the same for a reorg that happened while the wallet was stopped: the startup walk finds the common block
 		checkStartupWalk(c, "C02-R4")
+		// disconnects are acted upon only once the wallet is marked synced: the one place that marks it always does
+		checkRescanFinishedAlwaysMarksSynced(c, "C02-R4")
 		c.Check("C02-R4", "Rollback-reaches-rollback", roll.Pos(), p.reachSet(roll)[p.Func("wtxmgr", "Store", "rollback")], "Store.Rollback no longer reaches rollback")
 		// ... on every success path: block records exist only for blocks that hold a wallet transaction, so no
 		// property of the block at `height` itself can justify skipping the walk over the blocks above it
